@@ -226,7 +226,14 @@ void run_case(Choices &c, Ctx &ctx)
 		text.reserve(N * unit.size());
 		for (size_t i = 0; i < N; i++)
 			text += unit;
+		long live0 = verif_alloc_live();
+		verif_alloc_peak_reset();
 		POut r = parse_fresh(text, 0, D, true);
+		long peak = verif_alloc_peak() - live0;
+		// memory bounded by the limit, not by the input: a handful of blocks per permitted level
+		if (peak > 12L * D + 64)
+			ctx.fail("memory-unbounded", "parsing " + str(N) + " nested levels with depth limit " + str(D) + " held " + str(peak) +
+			                                 " allocations at once (more than the limit implies)");
 		// the value enclosed by D containers starts at offset D*|unit|
 		size_t at = (size_t)D * unit.size();
 		if (N > (size_t)D)
